@@ -479,8 +479,8 @@ fn part_pumped() -> Stats {
 pub fn run(cfg: &Cfg) -> Report {
     let t = cfg.tier;
     let mut stats = Stats::new();
-    stats.merge(part_tokens(t.pick(4, 5), t.pick(3, 4)));
-    stats.merge(part_chars(t.pick(3, 4)));
+    stats.merge(part_tokens(t.pick(4, 6), t.pick(3, 4)));
+    stats.merge(part_chars(t.pick(3, 5)));
     stats.merge(part_builtins(t));
     stats.merge(part_operators());
     stats.merge(part_pumped());
@@ -497,10 +497,10 @@ pub fn run(cfg: &Cfg) -> Report {
     Report {
         property: ID,
         level: "model_checking",
-        rule: format!("(a) depth-first search over every token sequence of length <= {} over a 20-token alphabet (incl. dangling `&`, `|`), a state is a token prefix; (b) every character string of length <= {} over a 27-character alphabet (digits, e, x, dot, quote, backslash, comment and operator characters, whitespace, multi-byte characters); (c) 49 builtins x the C10 argument matrix, with the argument bound and literal-rendered; (d) every operator, op-assign, prefix operator and sequence x pool^2; (e) {} pumped families x lengths {:?} in child processes. Every input: tokenize, precompile, Display/Debug/clone/iterators of the tree, evaluation in 12 contexts (HashMapContext empty / identifiers bound to each type incl. extremes / total, failing and shadowing user functions / builtins off; EmptyContext; EmptyContextWithBuiltinFunctions) through shared and mutable forms, string-level forms, all typed wrappers on the shorter inputs, Display/Debug of every value and error. Both build profiles (overflow checks on, off). Non-trivial: every token sequence and character string (each enumerated once)", t.pick(4, 5), t.pick(3, 4), families().len(), PUMP_LENGTHS),
+        rule: format!("(a) depth-first search over every token sequence of length <= {} over a 20-token alphabet (incl. dangling `&`, `|`), a state is a token prefix; (b) every character string of length <= {} over a 27-character alphabet (digits, e, x, dot, quote, backslash, comment and operator characters, whitespace, multi-byte characters); (c) 49 builtins x the C10 argument matrix, with the argument bound and literal-rendered; (d) every operator, op-assign, prefix operator and sequence x pool^2; (e) {} pumped families x lengths {:?} in child processes. Every input: tokenize, precompile, Display/Debug/clone/iterators of the tree, evaluation in 12 contexts (HashMapContext empty / identifiers bound to each type incl. extremes / total, failing and shadowing user functions / builtins off; EmptyContext; EmptyContextWithBuiltinFunctions) through shared and mutable forms, string-level forms, all typed wrappers on the shorter inputs, Display/Debug of every value and error. Both build profiles (overflow checks on, off). Non-trivial: every token sequence and character string (each enumerated once)", t.pick(4, 6), t.pick(3, 5), families().len(), PUMP_LENGTHS),
         nontrivial_set: "counter:nontrivial-distinct",
         exhaustive: true,
-        bound_completed: format!("token sequences {}, character strings {}, pumped inputs to 4096 characters", t.pick(4, 5), t.pick(3, 4)),
+        bound_completed: format!("token sequences {}, character strings {}, pumped inputs to 4096 characters", t.pick(4, 6), t.pick(3, 5)),
         assumptions: vec![
             "oracle: no unwind out of any call (panic hook records file:line), no abnormal child exit".into(),
             "deep inputs run on the child's main thread with the default 8 MiB stack, optimised profile".into(),
